@@ -8,4 +8,6 @@ CONSTANTS
   DeleteByIdentity = FALSE
   Janitors = 1
   Destroys = 0
+  Compactions = 0
+  ClosedIsDone = TRUE
 INVARIANTS Readable LockExclusive
